@@ -111,6 +111,8 @@ class World:
         self.link = HidLink(self.device, self.clock, self.log, fault_fn=fault_fn)
         self.v1 = v1
         self.pin = pin if pin is not None else FakePin()
+        from comm.platform import Platform
+        Platform.set(Platform.LEDGER)        # what manager_ledger.py does before anything else
         self.dongle = _hsm2dongle_mod.HSM2Dongle(False)
         if v1:
             self.protocol = _ledger_protocol_v1_mod.HSM1ProtocolLedger(self.pin, self.dongle)
@@ -145,6 +147,12 @@ class World:
             self.shutdown_requested = True
         except Exception as e:     # would be logged as UNKNOWN by the TCP layer
             exc = e
+        except BaseException as e:  # not even the TCP layer catches these: the manager goes down
+            from sim import kernel as _kernel
+            if isinstance(e, (SimCrash, _kernel.SimCrash)):
+                raise
+            exc = e
+            self.shutdown_requested = True
         out = wfile.getvalue()
         self.log.ev("rep", out, type(exc).__name__ if exc else "")
         if exc is not None:
